@@ -43,6 +43,8 @@ def run(ctx):
     # how Module::functions is built (Mir::lower, lir::lower, the helper generators, declare_function): a change
     # there breaks exactly the obligations of C04Tab
     prove(PROPS + "Tab", ["RotoV.Model.GateTab"])
+    # the property about programs: the gate theorems composed with the table theorems (no definitions of its own)
+    prove(PROPS + "All")
     # the driver imports Generated.Gate and Generated.GateTab: built on its own, so that a failed extraction of
     # one target breaks the obligations of its own theorem module only (the correspondence run then uses the
     # driver of the last successful build, whose model is the unchanged tree's)
